@@ -25,6 +25,18 @@ def w_setup(ex):
     ex.pc.append(f(th.lit(" ")) == 1)
 
 
+def w_at_call_site(ex, env, bound):
+    """When W is used by contract: a caller that leaves len_fn at its default (builtin len, e.g.
+    line_wrap_by_sentence) measures with the same function it passes around as `len_fn`; the two are
+    identified (assumption, reported: every wrapper flowmark builds uses len for both)."""
+    from vfcore.values import VFunc
+    w_setup(ex)
+    f = bound.get("len_fn")
+    if isinstance(f, VFunc) and f.payload is None:
+        bound["len_fn"] = VFunc("len_fn", "callee", Callee("uf", ret="int", sig=["s"]))
+        env["len_fn"] = bound["len_fn"]
+
+
 W_DEFS = {
     "col(k)": "ite(k == 0, ite(initial_column + len_fn(words[0]) <= width, initial_column, subsequent_offset), subsequent_offset)",
     "maybe_strip(x)": "ite(drop_whitespace, strip(x), x)",
@@ -38,7 +50,8 @@ W_DEFS = {
                   " and lead[cuts[j]]",
     "word_ok(k)": "outw[k] == words[k] or (is_markdown and k > 0 and lead[k] and outw[k] == call('markdown_escape_word', words[k]))",
     "truecol(j)": "ite(j == 0, initial_column, subsequent_offset)",
-    "nw()": "maybe_strip(ite(replace_whitespace, call('re.sub', '\\\\s+', ' ', old('text')), old('text')))",
+    # C05: width <= 0 gives exactly one line per paragraph: whitespace runs (incl. newlines) collapsed
+    "nw()": "maybe_strip(call('re.sub', '\\\\s+', ' ', old('text')))",
     "finding7()": "initial_column + len_fn(words[0]) > width and initial_column > subsequent_offset",
 }
 
@@ -52,7 +65,7 @@ contract(Contract(
            "ends": "list[int]", "lead": "list[bool]", "cs": "int", "nlead": "int", "word": "str",
            "first_line": "bool", "current_width": "int", "words": "list[str]"},
     result_alias=["lines"],
-    setup_callee=lambda ex, env, bound: w_setup(ex),
+    setup_callee=w_at_call_site,
     setup=w_setup,
     shards=14,
     requires={"cols": "initial_column >= 0 and subsequent_offset >= 0"},
